@@ -435,7 +435,9 @@ func newAddressScriptHash32FromHash(scriptHash []byte, net *chaincfg.Params) (*A
 // EncodeAddress returns the string encoding of a pay-to-script-hash
 // address.  Part of the Address interface.
 func (a *AddressScriptHash32) EncodeAddress() string {
-	return encodeCashAddress(a.hash[:], a.prefix, AddrTypePayToScriptHash) // TODO TODO
+	// P2SH32 is the P2SH type with the 256-bit size code (version byte 0x0b);
+	// the full 32-byte hash must be packed, not its first 20 bytes.
+	return checkEncodeCashAddress(a.hash[:], a.prefix, AddrTypePayToScriptHash)
 }
 
 // ScriptAddress returns the bytes to be included in a txout script to pay
@@ -766,7 +768,7 @@ func checkDecodeCashAddress(input string) (result []byte, prefix string, t Addre
 	if err != nil {
 		return data, prefix, AddrTypePayToPubKeyHash, err
 	}
-	if len(data) != 21 {
+	if len(data) != 21 && len(data) != 33 {
 		return data, prefix, AddrTypePayToPubKeyHash, errors.New("incorrect data length")
 	}
 	switch data[0] {
@@ -774,10 +776,16 @@ func checkDecodeCashAddress(input string) (result []byte, prefix string, t Addre
 		t = AddrTypePayToPubKeyHash
 	case 0x08:
 		t = AddrTypePayToScriptHash
+	case 0x0b:
+		t = AddrTypePayToScriptHash32
 	default:
 		return data, prefix, AddrTypePayToPubKeyHash, ErrUnknownAddressType
 	}
-	return data[1:21], prefix, t, nil
+	// The size code in the version byte must match the payload length.
+	if (t == AddrTypePayToScriptHash32) != (len(data) == 33) {
+		return data, prefix, AddrTypePayToPubKeyHash, errors.New("incorrect data length")
+	}
+	return data[1:], prefix, t, nil
 }
 
 // AddressType represents the type of address and is used
